@@ -30,7 +30,7 @@ CONSTANTS
   Hardenings,           \* subset of {"none","xor","delegate"}
   HardenUps,            \* subset of BOOLEAN (TRUE must be a member): ascending / descending representative key sequences
   HardenGks,            \* global keys explored by the CFG runs (5 must be a member); the algebra is exhaustive over 0..KMax
-  AllowSplitAfterTrash, \* FALSE: do not explore block_splits>0 together with trash_blocks>0 (see F14)
+  AllowSplitAfterTrash, \* FALSE: do not explore block_splits>0 together with trash_blocks>0 (see F110)
   HonourBlacklist,      \* TRUE = generateKeys as the code has it; FALSE = what-if (mutant)
   ReserveZero,          \* TRUE = dispatcher keys are Perm(n)+1 as the code has it; FALSE = what-if (mutant)
   SplitFixesPreds,      \* TRUE = applySplitting rewrites succ.Preds as the code has it; FALSE = what-if (mutant)
